@@ -13,12 +13,13 @@ SPEC = dict(
          'cycle of every length 1..8, dangling references; (d) EVERY digraph incl. self-loops on 1..3 nodes (thorough: ..4). Accepted '
          'configurations are instantiated with the real constructors / initializeCurves / initializeFanControllers, every curve is evaluated '
          'under 8 sensor environments (incl. NaN/Inf averages) and every fan runs calculateTargetPwm, panics recovered, endless recursion '
-         'detected in a child process. Non-trivial = at least one curve and one fan or sensor; distinct = distinct (configuration, observation) terms.',
+         'detected in a child process per target (stack limit 16 MB, 15 s watchdog; generation stops after 12 cases with an endless recursion, each of which is a failing input). Non-trivial = at least one curve and one fan or sensor; distinct = distinct (configuration, observation) terms.',
     assumptions=['perm_ok: the result of util.CheckFilePermissionsForExecution(config file) is an oracle argument of validate (exercised with modes 0644/0666)',
                  'Tarjan SCC (github.com/looplab/tarjan) is not modelled: the model decides the same criterion by peeling, proved exact (C11_cycle_check_exact, C11_scc_criterion); agreement observed on all digraphs <= 3 (thorough 4) nodes',
                  'sensor environments are values (moving averages, PID outputs); sensor READ failures are C09\'s subject',
                  'hwmon discovery (C17) is replaced in the driver by pointing hwmon entries at temp files'],
-    trusted_base=['YAML/viper/mapstructure decoding is not modelled; the driver checks that every rendered document decodes to exactly the abstract configuration handed to the model (o_decode)',
+    trusted_base=['Print Assumptions lists only kernel primitives (PrimFloat.*, PrimInt63.*) - no axiom; floats occur only as opaque data of the evaluator and in the `== 0` tests of the PID constants',
+                  'YAML/viper/mapstructure decoding is not modelled; the driver checks that every rendered document decodes to exactly the abstract configuration handed to the model (o_decode)',
                   'hand-written model of validation.go, NewSensor/NewSpeedCurve/NewFan, initializeFanControllers, Evaluate of the three curve kinds (crash sites explicit)'],
     partial='',
     finding_codes={}, finding_text={},
